@@ -9,10 +9,10 @@ pub fn prop() -> Prop {
     Prop {
         id: "C17",
         level: "model_checking",
-        rule: "streams of <=3 (thorough <=4) values over a 7-value core (incl. multi-line values and a multi-byte string) x 6 separator kinds (space, LF, CRLF, mixed run, touching, LF+indent), clean and with whitespace-delimited noise in one gap; deliveries: whole, 1-byte, greedy reads cut at EVERY set of <=2 offsets, Interrupted before every offset (singly and all at once), one file, FIFO with 3/7-byte writes; file partitions (file names not in sorted order; the same file twice): EVERY composition of the value sequence into 1..4 files and EVERY cut inside the text (a value cut by a file boundary); --only-objects-and-arrays on/off; plus 7 tokens (number, multi-byte string, literal, escapes, containers) placed so that they straddle byte 8192 and 16384 of the input at every split position, read byte by byte, from a file and in 1 KiB/4 KiB/8 KiB chunks; 300 and 1100 values one per line (LF, CRLF) and all on one line (indices, lines and columns beyond 255 / 65535) and spread over 10 files, one of them empty; non-trivial = >=2 values or a cut inside a value; distinct by construction",
+        rule: "streams of <=3 (thorough <=4) values over a 7-value core (incl. multi-line values and a multi-byte string) x 6 separator kinds (space, LF, CRLF, mixed run, touching, LF+indent), clean and with whitespace-delimited noise in one gap; deliveries: whole, 1-byte, greedy reads cut at EVERY set of <=2 offsets, Interrupted before every offset (singly and all at once), one file, FIFO with 3/7-byte writes; file partitions (file names not in sorted order; the same file twice): EVERY composition of the value sequence into 1..4 files and EVERY cut inside the text (a value cut by a file boundary); --only-objects-and-arrays on/off; plus 7 tokens (number, multi-byte string, literal, escapes, containers) placed so that they straddle byte 8192 and 16384 of the input at every split position, read byte by byte, from a file and in 1 KiB/4 KiB/8 KiB chunks; 300 and 1100 values one per line (LF, CRLF) and all on one line (indices, lines and columns beyond 255 / 65535) and spread over 10 files, one of them empty; non-trivial = >=2 values or a cut inside a value; distinct by construction; directory arguments: 6 layouts (two files, plain files around a directory, nested directories with an empty file, two directories, one file, noisy files) x --only-objects-and-arrays, checked per file because the order inside a directory is the file system's",
         explanation: "(a) every delivery must give the byte-identical observation; (b) out(f1..fn) = out(f1)...out(fn) with all per-file selectors; (c) the seven &-selectors are compared with a location model on the input text: &index ordinal of processed values, &index-in-file per file, &file-name the path, [start,end) as byte offsets must contain the value's span from the strict reference reader, consecutive ranges contiguous on clean streams, lines counted by LF only",
         assumptions: COMMON_ASSUMPTIONS.to_vec(),
-        guards: vec!["same-file-twice", "index-line-column-beyond-255", "token-straddles-a-buffer-boundary", "touching-values", "multi-line-value", "cut-inside-value", "greedy-chunking", "file-boundary-inside-value", "ooa-skips-scalar", "crlf", "fifo"],
+        guards: vec!["directory-argument", "same-file-twice", "index-line-column-beyond-255", "token-straddles-a-buffer-boundary", "touching-values", "multi-line-value", "cut-inside-value", "greedy-chunking", "file-boundary-inside-value", "ooa-skips-scalar", "crlf", "fifo"],
         budget_s: (100, 1800),
         single_worker: false,
         run,
@@ -163,6 +163,11 @@ fn check_context(rows: &[V], st: &Stream, ooa: bool, first_index: usize, file: O
         }
     }
     None
+}
+
+/// values of a text whose tokens are separated by blanks (tokens that are not JSON values are noise)
+fn values_of(text: &str) -> Vec<V> {
+    text.split_whitespace().filter_map(|t| json::parse_one(t.as_bytes()).ok()).collect()
 }
 
 fn rows_of(o: &Obs) -> Result<Vec<V>, String> {
@@ -360,6 +365,115 @@ fn run(ctx: &mut Ctx) {
         }
     }
     ctx.level_done("hundreds-of-values(lines-and-columns-beyond-255/65535,10-files)");
+    // ---- directory arguments: every file below the directory is one input file (the order inside a directory is the
+    // file system's, so the oracle is per file: contiguous rows, &index-in-file 0.., values in order, &index = row number)
+    let layouts: [&[(&str, &str)]; 6] = [
+        &[("d/x.json", "1 [2]"), ("d/y.json", "{\"a\":3} 4")],
+        &[("a.json", "0"), ("d/x.json", "1 [2] 3"), ("d/y.json", "[4]"), ("d/z.json", "5 6"), ("b.json", "7 [8]")],
+        &[("d/x.json", "[1]"), ("d/sub/y.json", "[2] [3]"), ("d/sub/deeper/z.json", "[4] 5 [6]"), ("d/w.json", "")],
+        &[("d/x.json", "1 2"), ("e/x.json", "3 4 5"), ("e/y.json", "[6]")],
+        &[("a.json", "[0] 1"), ("d/only.json", "2 3")],
+        &[("d/x.json", "1 } 2"), ("d/y.json", "[3] : [4]"), ("b.json", "5")],
+    ];
+    for (li, layout) in layouts.iter().enumerate() {
+        for ooa in [false, true] {
+            if !ctx.mine() {
+                continue;
+            }
+            let mut a = vec!["--select=&index=i".to_string(), "--select=&index-in-file=j".into(), "--select=&file-name=f".into(), "--select=.=v".into()];
+            if ooa {
+                a.push("--only-objects-and-arrays".into());
+            }
+            let files: Vec<(String, Vec<u8>)> = layout.iter().map(|(n, t)| (n.to_string(), t.as_bytes().to_vec())).collect();
+            let case = Case { args: a, input: Input::Files(files), rplan: ReadPlan::default(), wplan: WritePlan::default() };
+            let o = ctx.run(&case);
+            ctx.case_done();
+            ctx.trace_validated();
+            ctx.nontrivial();
+            ctx.guard("directory-argument");
+            ctx.transition(&("dir", li, ooa));
+            let sig = format!("directory layout #{li} ooa={ooa}");
+            let rows = match (o.res.is_ok(), rows_of(&o)) {
+                (true, Ok(r)) => r,
+                _ => {
+                    ctx.violation("run-failed", &sig, &[case.clone()], "Ok".into(), o.brief());
+                    continue;
+                }
+            };
+            // expected values per file
+            let mut problem: Option<(String, String, String)> = None;
+            let mut seen_files: Vec<String> = Vec::new();
+            let mut at = 0usize;
+            while at < rows.len() && problem.is_none() {
+                let Some(V::Str(f)) = rows[at].get("f") else {
+                    problem = Some(("file-name".into(), "a file name".into(), json::to_text(&rows[at])));
+                    break;
+                };
+                let Some((name, text)) = layout.iter().find(|(n, _)| f.ends_with(&format!("/{n}"))) else {
+                    problem = Some(("file-name".into(), "one of the files given".into(), f.clone()));
+                    break;
+                };
+                if seen_files.contains(&name.to_string()) {
+                    problem = Some(("rows-of-one-file-not-contiguous".into(), format!("all rows of {name} together"), format!("row {at} returns to {name}")));
+                    break;
+                }
+                seen_files.push(name.to_string());
+                let vals: Vec<V> = values_of(text).into_iter().filter(|v| !ooa || matches!(v, V::Obj(_) | V::Arr(_))).collect();
+                for (j, v) in vals.iter().enumerate() {
+                    let Some(r) = rows.get(at) else {
+                        problem = Some(("row-count".into(), format!("{} rows for {name}", vals.len()), format!("{j}")));
+                        break;
+                    };
+                    if r.get("v") != Some(v) || !matches!(r.get("f"), Some(V::Str(g)) if g == f) {
+                        problem = Some(("value".into(), format!("{} from {name}", json::to_text(v)), json::to_text(r)));
+                        break;
+                    }
+                    if num(r, "j") != Some(j as i128) {
+                        problem = Some(("index-in-file".into(), format!("&index-in-file = {j} for value {} of {name}", json::to_text(v)), format!("{:?}", num(r, "j"))));
+                        break;
+                    }
+                    if num(r, "i") != Some(at as i128) {
+                        problem = Some(("index".into(), format!("&index = {at}"), format!("{:?}", num(r, "i"))));
+                        break;
+                    }
+                    at += 1;
+                }
+            }
+            if problem.is_none() {
+                // every file with values was read, plain files in command-line order around the directory
+                let expected_files: Vec<&str> = layout.iter().filter(|(_, t)| values_of(t).iter().any(|v| !ooa || matches!(v, V::Obj(_) | V::Arr(_)))).map(|(n, _)| *n).collect();
+                let mut a = seen_files.clone();
+                a.sort();
+                let mut b: Vec<String> = expected_files.iter().map(|s| s.to_string()).collect();
+                b.sort();
+                if a != b {
+                    problem = Some(("files-read".into(), format!("{b:?}"), format!("{a:?}")));
+                } else {
+                    let top = |n: &str| n.split('/').next().unwrap().to_string();
+                    let mut order_seen: Vec<String> = Vec::new();
+                    for n in &seen_files {
+                        if order_seen.last() != Some(&top(n)) {
+                            order_seen.push(top(n));
+                        }
+                    }
+                    let mut order_given: Vec<String> = Vec::new();
+                    for n in &expected_files {
+                        if !order_given.contains(&top(n)) {
+                            order_given.push(top(n));
+                        }
+                    }
+                    if order_seen != order_given {
+                        problem = Some(("argument-order".into(), format!("{order_given:?}"), format!("{order_seen:?}")));
+                    }
+                }
+            }
+            match problem {
+                Some((clause, e, g)) => ctx.violation(&clause, &sig, &[case.clone()], e, g),
+                None => ctx.outcome("context-ok"),
+            }
+        }
+    }
+    ctx.level_done("directory-arguments(6-layouts,nested,next-to-plain-files)");
 }
 
 fn one_stream(ctx: &mut Ctx, st: &Stream, ooa: bool) {
